@@ -53,6 +53,7 @@ TINY = [0.0001, 0.00015, 0.00003, 1e-05, 0, None]
 STATS = ('count', 'total', 'min', 'max', 'mean', 'variance', 'variance-n',
          'standard-deviation', 'standard-deviation-n', 'median')
 CASE_CPU_SECONDS = 120.0
+CASE_CPU_SECONDS_QUICK = 15.0
 
 _t = {}
 
